@@ -59,8 +59,8 @@ CLAIMED = {
 
 LT = " Leaf contracts are explicit hypotheses of the theorems, shown satisfiable by complete executable instances (fixLeaves/fixSound: literal tokens + fixed-Huffman blocks; batchDecoder/batchFaithful) and checked on the real code per run, not proved for it."
 CLAIMED.update({
- "C01": ("Lean 4 stream-composition proof: invariant over the Writer control model (any data, any Write/Flush/Reset history, buffer roll-overs, window slides, early-stopping match finder) => after Close the destination holds exactly one complete stream that the specification inflater decodes to the data; leaf contracts Sound (match finder, block encoder); correspondences I (spec inflater vs compress/flate), W (control model in lock-step), G (every recorded match-finder call, Go and assembly, passes the proved-sound check checkGen) + three-decoder round-trip oracle at every acceleration level",
-         "Proof (partial): C01_roundtrip_dyn, C01_empty are kernel-checked for ALL inputs and call patterns of the dynamic compressor (levels 1, 2, default; both windows) under the leaf contracts Sound; the contracts are shown satisfiable (fixSound) and checked on the implementation: G correspondence checks each recorded match-finder call against checkGen (checkGen_sound: tokens replayed as an inflater would reproduce the consumed bytes) at every level, the oracle decodes every emitted stream with compress/flate, the reference inflater and fastgo's Reader. Not covered by the theorem, oracle only: Huffman-only compressor, delegated levels 0/3-9, preset dictionaries, the block encoder's contract (Huffman code generation, header, bit packing).",
+ "C01": ("Lean 4 stream-composition proof: invariant over the Writer control model (any data, any Write/Flush/Reset history, buffer roll-overs, window slides, early-stopping match finder) => after Close the destination holds exactly one complete stream that the specification inflater decodes to the data; leaf contracts Sound (match finder, block encoder); correspondences I (spec inflater vs compress/flate), W and H (dynamic and Huffman-only control models in lock-step), G (every recorded match-finder call, Go and assembly, passes the proved-sound check checkGen) + three-decoder round-trip oracle at every acceleration level",
+         "Proof (partial): C01_roundtrip_dyn, C01_empty (dynamic compressor: levels 1, 2, default; both windows) and C01_roundtrip_huff (Huffman-only, level -2) are kernel-checked for ALL inputs and call patterns under the leaf contracts Sound / HSound; the contracts are shown satisfiable (fixSound) and checked on the implementation: G correspondence checks each recorded match-finder call against checkGen (checkGen_sound: tokens replayed as an inflater would reproduce the consumed bytes) at every level, the oracle decodes every emitted stream with compress/flate, the reference inflater and fastgo's Reader. Not covered by the theorems, oracle only: delegated levels 0/3-9, preset dictionaries (known finding F-C01-1), the block encoders' contracts (Huffman code generation, header, bit packing).",
          WT + LT, "DESIGN.md section 6 C01"),
  "C02": ("Lean 4 delivery theorem over the Reader control model: for any bufio size, source chunking and sequence of Read sizes the bytes handed out are, in order and without loss or duplication, a prefix of the specification inflater's output for the bytes the decoder took, and io.EOF means exactly the complete output; decoder leaf contracts Sane + Faithful; correspondences I and R + differential oracle against compress/flate over synthesised code shapes at every level",
          "Proof (partial): C02_delivery, C02_eof_complete(_from_start) are kernel-checked by induction over Read calls for an arbitrary decoder meeting Sane and Faithful (relative to Spec.inflate, tied to compress/flate by I); batchDecoder shows the contracts satisfiable and runs the Reader model on real DEFLATE bytes inside Lean. That the real decoder (tables, Go and AVX2 loops) is Faithful and makes progress on every valid stream is NOT proved: oracle (every block type / code shape family, all read-size schedules) and R correspondence.",
@@ -68,8 +68,8 @@ CLAIMED.update({
  "C03": ("Lean 4 theorems over the Reader control model: no fabricated byte (also after Reset), io.EOF only after a complete stream, error kinds determined by the decoder's verdict and the source's EOF, errors sticky; decoder contracts Sane + Faithful; I and R correspondences + fault-injection oracle bounded by the permissive reference inflater (upper) and compress/flate (lower)",
          "Proof (partial): C03_no_fabrication, C03_reset_forgets, C03_eof_only_if_complete, C03_error_kinds, C03_sticky are kernel-checked for all inputs/histories under the decoder contracts. Not proved: absence of panics/hangs in the decoder proper and its Faithfulness on malformed input (stale tables, unassigned codes): oracle with 17 fault kinds, truncation at every byte, reuse after other streams, recovered panics + watchdog, at every level.",
          RT + LT, "DESIGN.md section 6 C03"),
- "C10": ("Lean 4 stream-composition proof: after every successful Flush the destination holds a chain of complete non-final blocks (ending with the empty stored block, byte aligned, nothing in the bit carry) that the specification inflater decodes to all data so far and then asks for more at a block boundary; the invariant continues to hold for later Write/Flush/Close; correspondences I, W, G + flush-prefix oracle with compress/flate and the reference inflater",
-         "Proof (partial): C10_flush_point, C10_stream_stays_valid are kernel-checked for ALL data and Write/Flush/Reset histories of the dynamic compressor under the leaf contracts Sound (as C01). Oracle only: Huffman-only compressor, gzip/zlib framing, delegated levels.",
+ "C10": ("Lean 4 stream-composition proof: after every successful Flush the destination holds a chain of complete non-final blocks (ending with the empty stored block, byte aligned, nothing in the bit carry) that the specification inflater decodes to all data so far and then asks for more at a block boundary; the invariant continues to hold for later Write/Flush/Close; dynamic and Huffman-only compressors; correspondences I, W, H, G + flush-prefix oracle with compress/flate and the reference inflater",
+         "Proof (partial): C10_flush_point, C10_stream_stays_valid (dynamic compressor) and C10_flush_point_huff (Huffman-only) are kernel-checked for ALL data and Write/Flush/Reset histories under the leaf contracts Sound / HSound (as C01). Oracle only: gzip/zlib framing, delegated levels.",
          WT + LT, "DESIGN.md section 6 C10"),
  "C19": ("Lean 4: uint32/uint16 arithmetic of the window test (accepts exactly 1..window), distance-symbol table round trip over all 32768 distances (decide +kernel), regenerated facts on the code shape and constructor windows, and checkGen_sound: a recorded match-finder call that passes the executable check only emitted matches within the window; G correspondence applies that check to Go AND assembly match finders at every level; traced-inflater oracle on window-edge families",
          "Proof (partial): C19_accept_bounds, C19_reject_outside, C19_emitted_distance, C19_window, C19_checked_call are kernel-checked; C19_code_shape / C19_constructor_windows are decided over facts regenerated from /repo on every run. The assembly match finders have no Lean model: every recorded call is checked (G) and the maximum distance of every output is measured by the reference inflater at each level.",
